@@ -278,6 +278,11 @@ package security
 
 //@ func (*Authenticator).performAuthentication (a, ctx, method, negotiation) (err)
 //@   trusted
+//@   nocall [C04] digests_run_through_the_method_exchange: Stream).FinalizeDigests
+//@   nocall [C04 C03] no_key_before_key_agreement: Stream).SetSymmetricKey
+//@   nocall [C19] caller_context_threaded: context.Background
+//@   nocall [C19] caller_context_threaded2: context.WithoutCancel
+//@   nocall [C19] caller_context_threaded3: context.TODO
 //@   preserves security.SecurityConfig security.Authenticator elems$security.AuthMethod
 //@   ensures counted: authOKCount == old(authOKCount) + ite(err == nil, 1, 0)
 //@   ensures which: err == nil ==> authOKMethod == method
